@@ -761,14 +761,17 @@ impl Parse for ImplGroups {
             })
             .collect::<Vec<_>>()
             .into_iter()
-            .flat_map(|impl_group_id| {
+            // NOTE: Groups of the previous roots are carried over, a group that is
+            // a subset of multiple roots can be a part of any of their impl groups
+            .fold(IndexMap::new(), |mut prev_impl_groups, impl_group_id| {
                 let impl_group = impl_groups[impl_group_id].keys().collect::<Vec<_>>();
 
-                find_impl_group_candidates(
+                find_impl_group_candidates_with(
                     (impl_group_id, &impl_group),
                     &subsets,
                     &mut supersets,
                     &impl_groups,
+                    &mut prev_impl_groups,
                 )
                 .reduce(|mut acc, impl_groups| {
                     // TODO: How to choose minimal impl group set?
@@ -782,6 +785,7 @@ impl Parse for ImplGroups {
                 // TODO: Handle error properly
                 .unwrap_or_else(|| panic!("Unable to form impl group for {:?}", impl_group_id))
             })
+            .into_iter()
             .map(|(impl_group_id, (assoc_bounds, impl_group))| {
                 let item_impls = impl_group.into_iter().cloned().collect();
                 (
@@ -807,12 +811,32 @@ fn find_impl_group_candidates<'a, 'b>(
 
     item_impls: &'b IndexMap<ImplGroupId, IndexMap<ItemImpl, ItemImplBounds>>,
 ) -> impl Iterator<Item = IndexMap<&'a ImplGroupId, (AssocBoundsGroup, Vec<&'b ItemImpl>)>> {
-    find_impl_group_candidates_rec(
+    find_impl_group_candidates_with(
         curr_impl_group,
         impl_group_id_subsets,
         impl_group_id_supersets,
         item_impls,
         &mut IndexMap::new(),
+    )
+}
+
+/// Same as [`find_impl_group_candidates`] but the search starts from the given impl groups
+fn find_impl_group_candidates_with<'a, 'b>(
+    curr_impl_group: (&'a ImplGroupId, &[&'b ItemImpl]),
+
+    impl_group_id_subsets: &Subsets<'a>,
+    impl_group_id_supersets: &mut Supersets<'a>,
+
+    item_impls: &'b IndexMap<ImplGroupId, IndexMap<ItemImpl, ItemImplBounds>>,
+    impl_groups: &mut IndexMap<&'a ImplGroupId, (AssocBoundsGroup, Vec<&'b ItemImpl>)>,
+) -> impl Iterator<Item = IndexMap<&'a ImplGroupId, (AssocBoundsGroup, Vec<&'b ItemImpl>)>> + use<'a, 'b>
+{
+    find_impl_group_candidates_rec(
+        curr_impl_group,
+        impl_group_id_subsets,
+        impl_group_id_supersets,
+        item_impls,
+        impl_groups,
     )
     .into_iter()
     .filter_map(|mut impl_groups| {
